@@ -5,7 +5,7 @@ from ..prog import PPtr
 from ..facts import AnalysisBroken
 from ..interp import normx, nkey, run_all
 
-UNITS = ["bufferevent_sock", "bufferevent_pair", "bufferevent"]
+UNITS = ["bufferevent_sock", "bufferevent_pair", "bufferevent_filter", "bufferevent"]
 LEVEL = "other"
 CONFIGS = ["build", "assert"]
 EXPLANATION = (
@@ -22,7 +22,9 @@ EXPLANATION = (
     "a BEV_FINISHED flush transfers BEFORE it reports EOF to the partner, exactly once, with the direction bits of the flush. "
     "M (who moves data): in the socket, pair and filter back ends the input buffer of a bufferevent is written only by the transport (evbuffer_read / the pair transfer / the filter) "
     "and its output buffer is drained only by the transport - K2 over the buffer-mutating calls. "
-    "Declined: equality of the byte streams over histories of writes, toggles, flushes and faults (runtime values and orders), the filter and TLS state machines.")
+    "F (filter): be_filter_read_nolock_ never returns with data left in the underlying input unless the filter input is full and the inbuf callback is armed (somebody comes back "
+    "for it); be_filter_eventcb forwards each event once, unchanged, after pushing pending input through the filter in FINISHED mode when the read direction ended. "
+    "Declined: equality of the byte streams over histories of writes, toggles, flushes and faults (runtime values and orders), user filter callbacks, the TLS state machines.")
 ASSUMPTIONS = ["evbuffer_read/evbuffer_write_atmost move exactly what the system call reports (C16)", "evbuffer_add_buffer/remove_buffer move bytes in order (C12)"]
 
 
@@ -287,6 +289,133 @@ def rule_pair(P, C):
     return r
 
 
+def rule_filter(P, C):
+    """be_filter_read_nolock_: nobody else comes back for data left in the underlying input buffer; be_filter_eventcb: pending input goes through the filter before the end is announced"""
+    r = Rule("C17-filter", "K6", "filter: data left in the underlying input is either processed or waited for (inbuf callback armed on a full buffer); EOF/read error is forwarded once, after the pending input went through the filter in FINISHED mode", floor=16)
+    f = P.fn("be_filter_read_nolock_")
+    und, me = f.params[0][0], f.params[1][0]
+    OK_ = C.get("BEV_OK", 0)
+    NEED = C.get("BEV_NEED_MORE", 1)
+    bp = ["var", "bufev_private", "local"]
+    goteof_key = nkey(["fld", ["var", "bevf", "local"], "bufferevent_filtered.got_eof", "->"])
+    for chunks in (0, 1, 2, 3):
+        for drains in (0, 1):
+            for eof in (0, 1):
+                env = {"#typed": 1, "event_debug_logging_mask_": 0, und: 5, me: 7, "#L": chunks, "#full": 0, "#armed": 0, "#ops": (),
+                       nkey(["fld", bp, "bufferevent_private.refcnt", "->"]): 1, goteof_key: eof,
+                       nkey(["fld", ["var", "bufev", "local"], "bufferevent.enabled", "->"]): C["EV_READ"] | C["EV_WRITE"]}
+
+                def hook(el, e_):
+                    n = callee_name(el.e)
+                    a = el.e[2]
+                    try:
+                        if n == "be_filter_process_input":
+                            st = evalx(normx(a[1]), e_, P)
+                            full = e_["#full"] and st == C["BEV_NORMAL"]
+                            out = None
+                            for q in walk(a[2]):
+                                if is_e(q, "var"):
+                                    out = q[1]
+                            if out is None:
+                                return "impure"
+                            if e_["#L"] > 0 and not full:
+                                if st == C["BEV_NORMAL"]:
+                                    e_["#L"] -= 1
+                                    e_["#full"] = 1
+                                else:
+                                    e_["#L"] = 0        # FINISHED: no limit, the filter takes everything
+                                e_[out] = 1
+                                e_["#ops"] = e_["#ops"] + (("process", st),)
+                                return OK_
+                            return OK_ if full else NEED
+                        if n == "bufferevent_trigger_nolock_":
+                            if drains:
+                                e_["#full"] = 0
+                            e_["#ops"] = e_["#ops"] + (("readcb",),)
+                            return 0
+                        if n == "be_readbuf_full":
+                            st = evalx(normx(a[1]), e_, P)
+                            return 1 if (e_["#full"] and st == C["BEV_NORMAL"]) else 0
+                        if n == "evbuffer_get_length":
+                            return e_["#L"] * 10
+                        if n == "evbuffer_cb_set_flags":
+                            e_["#armed"] = 1
+                            return 0
+                        if n == "evbuffer_cb_clear_flags":
+                            e_["#armed"] = 0
+                            return 0
+                    except EvalError as ex:
+                        e_["#err"] = str(ex)
+                        return "impure"
+                    return None
+                outs = [o for o in run_all(f, (f.entry, 0), env, lambda el: False, P, hook, max_steps=900) if not (o.kind == "exit" and o.why == "noreturn")]
+                for o in outs:
+                    if o.kind == "unknown":
+                        r.brk("be_filter_read_nolock_: %s %s" % (o.why, o.env.get("#err", "")))
+                        return r
+                    L, full, armed = o.env["#L"], o.env["#full"], o.env["#armed"]
+                    r.inst(("read", chunks, drains, eof), {"underlying_chunks": chunks, "read_callback_drains": drains, "got_eof": eof, "left": L, "full": full, "inbuf_cb_armed": armed, "actions": [list(x) for x in o.env["#ops"]]})
+                    if L > 0 and not (full and armed and not eof):
+                        r.bad("K6:be_filter_read_nolock_:data-stuck", "%s:%d" % (f.file, f.line), f.name,
+                              "%d chunk(s) in the underlying input, read callback %s, got_eof=%d: returns with %d chunk(s) left, filter input %s, inbuf callback %s: nobody comes back for the rest"
+                              % (chunks, "drains" if drains else "keeps the data", eof, L, "full" if full else "not full", "armed" if armed else "not armed"))
+                    if chunks and not any(x[0] == "readcb" for x in o.env["#ops"]):
+                        r.bad("K6:be_filter_read_nolock_:no-readcb", "%s:%d" % (f.file, f.line), f.name, "data went through the filter but the read callback is not triggered")
+    # eventcb
+    g = P.fn("be_filter_eventcb")
+    und, what_p, me = g.params[0][0], g.params[1][0], g.params[2][0]
+    EV = lambda *n: sum(C[x] for x in n)
+    cases = [("eof", EV("BEV_EVENT_READING", "BEV_EVENT_EOF"), True), ("read-error", EV("BEV_EVENT_READING", "BEV_EVENT_ERROR"), True), ("write-error", EV("BEV_EVENT_WRITING", "BEV_EVENT_ERROR"), False),
+             ("timeout", EV("BEV_EVENT_READING", "BEV_EVENT_TIMEOUT"), False), ("connected", C.get("BEV_EVENT_CONNECTED", 0x80), False)]
+    for cname, what, ends in cases:
+        for left in (0, 50):
+            env = {"#typed": 1, "event_debug_logging_mask_": 0, und: 5, what_p: what, me: 7, "#ops": (), nkey(["fld", bp, "bufferevent_private.refcnt", "->"]): 1, goteof_key: 0}
+
+            def hook2(el, e_):
+                n = callee_name(el.e)
+                a = el.e[2]
+                try:
+                    if n == "be_filter_read_nolock_":
+                        e_["#ops"] = e_["#ops"] + (("push-input", e_.get(goteof_key, 0)),)
+                        return 0
+                    if n == "bufferevent_run_eventcb_":
+                        e_["#ops"] = e_["#ops"] + (("eventcb", evalx(normx(a[1]), e_, P)),)
+                        return 0
+                    if n == "evbuffer_get_length":
+                        return left
+                    if n in ("be_filter_process_input", "bufferevent_flush", "be_filter_flush"):
+                        e_["#ops"] = e_["#ops"] + (("push-input", 1 if n != "be_filter_process_input" else (1 if evalx(normx(a[1]), e_, P) == C["BEV_FINISHED"] else 0)),)
+                        return 0
+                except EvalError as ex:
+                    e_["#err"] = str(ex)
+                    return "impure"
+                return None
+            outs = [o for o in run_all(g, (g.entry, 0), env, lambda el: False, P, hook2, max_steps=400) if not (o.kind == "exit" and o.why == "noreturn")]
+            for o in outs:
+                if o.kind == "unknown":
+                    r.brk("be_filter_eventcb: %s %s" % (o.why, o.env.get("#err", "")))
+                    return r
+                ops = list(o.env["#ops"])
+                r.inst(("event", cname, left), {"event": cname, "what": hex(what), "underlying_input": left, "actions": [list(x) for x in ops]})
+                evs = [x for x in ops if x[0] == "eventcb"]
+                if evs != [("eventcb", what)]:
+                    r.bad("K6:be_filter_eventcb:forward-once", "%s:%d" % (g.file, g.line), g.name, "%s (%#x): event callbacks %s; the event is forwarded exactly once, unchanged" % (cname, what, evs))
+                elif ends and left:
+                    i = ops.index(("eventcb", what))
+                    if ("push-input", 1) not in ops[:i]:
+                        r.bad("K6:be_filter_eventcb:eof-with-input-pending", "%s:%d" % (g.file, g.line), g.name,
+                              "%s (%#x) with %d bytes in the underlying input: does %s; the pending input goes through the filter in FINISHED mode (past the read high watermark) BEFORE the end of the stream is announced" % (cname, what, left, ops))
+                elif not ends and o.env.get(goteof_key, 0):
+                    r.bad("K6:be_filter_eventcb:finished-too-early", "%s:%d" % (g.file, g.line), g.name, "%s (%#x) marks the input finished although the read direction goes on" % (cname, what))
+    seen, uniq = set(), []
+    for f_ in r.findings:
+        if f_.key not in seen:
+            seen.add(f_.key)
+            uniq.append(f_)
+    r.findings = uniq
+    return r
+
+
 def rule_movers(P):
     """who may put bytes into a bufferevent's input buffer / take bytes out of its output buffer inside the back ends"""
     r = Rule("C17-movers", "K2", "inside the socket and pair back ends only the transport writes bev->input and drains bev->output", floor=3)
@@ -294,7 +423,7 @@ def rule_movers(P):
     ALLOWED = {"bufferevent_readcb": "socket read", "bufferevent_writecb": "socket write", "be_pair_transfer": "pair transfer", "be_socket_flush": "flush", "bufferevent_socket_outbuf_cb": "-",
                "be_socket_setfd": "-"}
     for f in P.all_fns:
-        if f.file not in ("bufferevent_sock.c", "bufferevent_pair.c"):
+        if f.file not in ("bufferevent_sock.c", "bufferevent_pair.c", "bufferevent_filter.c"):
             continue
         for el in f.calls():
             n = callee_name(el.e)
@@ -319,7 +448,7 @@ def run(ctx, config):
         rr.brk("constants not found: %s" % [n for n in need if n not in C])
         return [rr]
     rules = []
-    for mk in (lambda: sock_rule(P, C, "bufferevent_readcb", "read"), lambda: sock_rule(P, C, "bufferevent_writecb", "write"), lambda: rule_pair(P, C), lambda: rule_movers(P)):
+    for mk in (lambda: sock_rule(P, C, "bufferevent_readcb", "read"), lambda: sock_rule(P, C, "bufferevent_writecb", "write"), lambda: rule_pair(P, C), lambda: rule_filter(P, C), lambda: rule_movers(P)):
         try:
             rules.append(mk())
         except AnalysisBroken as ex:
